@@ -3,9 +3,10 @@
     oracles, the generator as the list of its draws) and Num/Nuts.v (control flow of nuts /
     _build_tree_nuts over an abstract phase space with oracles).  This file only states the
     property theorems; proofs are in Proofs/C09_Metropolis.v, C09_Nuts.v, C09_Float.v.
-    Determinism in the seed is by construction: both models are functions of the draw list. *)
+    Determinism in the seed is by construction: both models are functions of the draw list; that no
+    call of a process can influence a later one is stated by the history theorems (Proofs/C09_History.v). *)
 From Coq Require Import List Bool Arith ZArith Floats.
-From Elfi Require Import Num.Mcmc Num.Nuts Proofs.C09_Metropolis Proofs.C09_Nuts Proofs.C09_Float.
+From Elfi Require Import Num.Mcmc Num.Nuts Proofs.C09_Metropolis Proofs.C09_Nuts Proofs.C09_Float Proofs.C09_History.
 Import ListNotations.
 
 (** ================= Metropolis ================= *)
@@ -200,6 +201,48 @@ Theorem C09_nuts_ok_sound : forall c, nok c = true -> nuts_property_holds c.
 Proof. exact nok_sound. Qed.
 Print Assumptions C09_nuts_ok_sound.
 
+(** ================= histories of calls in one process (wave 3) ================= *)
+
+(** No state between calls: whatever the process went through before ([prev]: any list of earlier
+    calls with their results), every call of a history - nuts or metropolis, on a target callable
+    that earlier calls used or on a new one, with a seed / start / setting used before or not, with a
+    given or a searched step size - returns the model's result for that call alone. *)
+Theorem C09_history_calls_are_fresh :
+  forall h prev, history_results prev h = map model_result h.
+Proof. exact history_results_fresh. Qed.
+Print Assumptions C09_history_calls_are_fresh.
+
+(** Deterministic in the arguments and the seed: two calls of one history with the same inputs
+    (arguments, generator stream = seed, oracles = target) return the same result, which is the
+    result of the call alone. *)
+Theorem C09_history_equal_calls_equal_results :
+  forall h prev i j c1 c2,
+    nth_error h i = Some c1 -> nth_error h j = Some c2 -> inputs c1 = inputs c2 ->
+    nth_error (history_results prev h) i = nth_error (history_results prev h) j
+    /\ nth_error (history_results prev h) i = Some (model_result c1).
+Proof. exact equal_calls_equal_results. Qed.
+Print Assumptions C09_history_equal_calls_equal_results.
+
+(** The history correspondence [hagree] is the comparison of every call, where it stands in the
+    history, with the model's replay of the record of the same call made alone. *)
+Theorem C09_history_correspondence_each_call :
+  forall h, hagree h = forallb call_agree h.
+Proof. exact hagree_each_fresh. Qed.
+Print Assumptions C09_history_correspondence_each_call.
+
+Theorem C09_history_ok_each_call : forall h, hok h = forallb call_ok h.
+Proof. exact hok_each_call. Qed.
+Print Assumptions C09_history_ok_each_call.
+
+(** Soundness of the decidable [hok] on a recorded history: from any earlier process state, every call
+    returned the model's chain of the call made alone, drew exactly the numbers the call alone draws
+    (same stream, same number of momentum draws in the step-size search, same step sizes), and satisfies
+    the single-call property both alone and where it stands. *)
+Theorem C09_history_ok_sound :
+  forall h prev, hok h = true -> Forall2 call_holds h (history_results prev (map hc_fresh h)).
+Proof. exact hok_each. Qed.
+Print Assumptions C09_history_ok_sound.
+
 (** ================= non-vacuity ================= *)
 
 (** Metropolis on a 1-D box target (-inf outside [-1,1]): a proposal outside the support is
@@ -243,3 +286,20 @@ Example C09_nuts_example_run :
      NM 7; NE 9; NU 10; NU 10; NU 10; NU 10]
   = NChain [6; 4; 4] [].
 Proof. vm_compute. reflexivity. Qed.
+
+(** Histories: a NUTS call alone (the step-size search draws one momentum first) followed by the same
+    call again and by a Metropolis call: passes.  The same history with the second NUTS call recorded in a
+    process that remembered the step size and skipped the search (so the call did not draw what it draws
+    alone - here it even returns the same state): rejected.  A call whose result differs from the call
+    alone: rejected. *)
+Example C09_history_example :
+  let nuts := {| hc_fresh := ex_alone; hc_here := ex_alone |} in
+  let met := {| hc_fresh := ex_met [[0x1.8p-1%float]]; hc_here := ex_met [[0x1.8p-1%float]] |} in
+  ok ex_alone = true /\ ok ex_skipped = true
+  /\ hok [nuts; nuts; met] = true
+  /\ history_results [] [ex_alone; ex_alone] = [MRNuts (NChain [2%N] []); MRNuts (NChain [2%N] [])]
+  /\ hagree [nuts; {| hc_fresh := ex_alone; hc_here := ex_skipped |}] = true
+  /\ hok [nuts; {| hc_fresh := ex_alone; hc_here := ex_skipped |}] = false
+  /\ hok [met; {| hc_fresh := ex_met [[0x1.8p-1%float]]; hc_here := ex_met [[0%float]] |}] = false
+  /\ ok_t (History [nuts; nuts; met]) = true /\ ok_t (Single ex_alone) = true.
+Proof. vm_compute. repeat split; reflexivity. Qed.
